@@ -11,8 +11,10 @@ A case is the set of grammar dimensions that deviate from the base flow: quick =
 with <= 2 deviations, thorough = <= 3 deviations, plus the full product of the two body groups
 (thorough: each such product additionally combined with every single other deviation).
 Multi-flow files: every ordered selection of 1..3 flows from a pool (incl. a non-HTTP flow
-and two flows sharing a server connection) written with export_har to a scratch file and read
-with read_flows_from_paths.
+and two flows sharing a server connection), combined with every weak ordering of the flows'
+start times (ascending, descending, equal, ties, non-monotonic: the exported list order is not
+the chronological order in general), written with export_har to a scratch file and read with
+read_flows_from_paths; `order_kept` compares the imported order with the exported list order.
 """
 from __future__ import annotations
 
@@ -197,10 +199,13 @@ def tokens(spec):
     return t
 
 
-def build_flow(spec, n=0):
+def build_flow(spec, n=0, start=None, seq=None):
     """a real HTTPFlow for the deviation set `spec`; returns (flow, expected) where expected holds
-    what the statement says must survive, derived from the spec (not from mitmproxy's accessors)"""
+    what the statement says must survive, derived from the spec (not from mitmproxy's accessors).
+    `start` is the request's start time as an offset (in units of 10 s) from TS, default: position n seconds;
+    `seq` adds an `X-Seq` request header that makes the flow identifiable inside a multi-flow file."""
     t = tokens(spec)
+    T0 = TS + n if start is None else TS + 10.0 * start
     scheme = t["scheme"]
     port = {"http": 80, "https": 443}[scheme] if t["port"] == "default" else 8080
     host = "example.com" if t["host"] == "name" else "192.0.2.7"
@@ -225,6 +230,8 @@ def build_flow(spec, n=0):
         if hh != "absent":
             fields.append((b"Host", shown_host.encode()))
     fields += REQ_HDR_SETS[t["req_hdrs"]]
+    if seq is not None:
+        fields.append((b"X-Seq", str(seq).encode()))
     body = REQ_BODIES[t["req_body"]]
     ct = CTYPES[t["req_ctype"]]
     if ct:
@@ -237,10 +244,10 @@ def build_flow(spec, n=0):
         fields.append((b"Content-Length", str(len(raw)).encode()))
     path = PATHS[t["path"]]
     if method == "CONNECT":
-        req = http.Request(host, port, b"CONNECT", b"", authority, b"", version.encode(), http.Headers(fields), raw, None, TS + n, TS + n + 1)
+        req = http.Request(host, port, b"CONNECT", b"", authority, b"", version.encode(), http.Headers(fields), raw, None, T0, T0 + 1)
     else:
         req = http.Request(host, port, method.encode(), scheme.encode(), authority, path, version.encode(),
-                           http.Headers(fields), raw, None, TS + n, TS + n + 1)
+                           http.Headers(fields), raw, None, T0, T0 + 1)
     f = tflow.tflow(req=req)
     f.id = "flow-%d" % n
     if t["peer"] == "none":
@@ -260,7 +267,7 @@ def build_flow(spec, n=0):
         "has_response": t["resp"] in ("present", "websocket"),
     }
     if t["resp"] == "absent_error":
-        f.error = mflow.Error("connection reset", TS + n + 2)
+        f.error = mflow.Error("connection reset", T0 + 2)
     if exp["has_response"]:
         ws = t["resp"] == "websocket"
         status = 101 if ws else t["status"]
@@ -281,7 +288,7 @@ def build_flow(spec, n=0):
         elif t["resp_framing"] == "chunked":
             rfields.append((b"Transfer-Encoding", b"chunked"))
         f.response = http.Response(version.encode(), status, status_codes.RESPONSES.get(status, "").encode(),
-                                   http.Headers(rfields), rraw, None, TS + n + 2, TS + n + 3)
+                                   http.Headers(rfields), rraw, None, T0 + 2, T0 + 3)
         if ws:
             f.websocket = tflow.twebsocket()
         if partial:
@@ -471,8 +478,34 @@ def drop_scratch():
         _SCRATCH = None
 
 
-def one_file(seq, t: Tally):
-    case = {"file": list(seq)}
+def ts_order(ts):
+    """coarse class of a start-time assignment (list order = export order)"""
+    if len(ts) < 2:
+        return "single"
+    if len(set(ts)) == 1:
+        return "all_equal"
+    if all(a < b for a, b in zip(ts, ts[1:])):
+        return "ascending"
+    if all(a <= b for a, b in zip(ts, ts[1:])):
+        return "ascending_with_ties"
+    if all(a > b for a, b in zip(ts, ts[1:])):
+        return "descending"
+    if all(a >= b for a, b in zip(ts, ts[1:])):
+        return "descending_with_ties"
+    return "non_monotonic"
+
+
+def one_file(item, t: Tally):
+    """item = [pool indices] (start times ascending with the position) or
+    {"file": [pool indices], "ts": [start-time rank per position]}: the list order is the exported order,
+    the start times are independent of it (completion order, user-ordered selections, equal times)"""
+    if isinstance(item, dict):
+        seq, ts = list(item["file"]), item.get("ts")
+    else:
+        seq, ts = list(item), None
+    if ts is None:
+        ts = list(range(len(seq)))
+    case = {"file": seq, "ts": list(ts)}
     reset_caches()
     flows, specs = [], []
     shared = None
@@ -483,16 +516,17 @@ def one_file(seq, t: Tally):
             continue
         spec = {} if entry == "same_server" else dict(entry)
         spec = dict(spec, path=["plain", "query", "query_dup", "escaped", "root"][n] if "path" not in spec else spec["path"])
-        f, exp = build_flow(spec, n)
+        f, exp = build_flow(spec, n, start=ts[n], seq=n)
         if entry == "same_server" or idx == 0:
             # pool flows 0 and "same_server" share one server connection object (the exporter's servers_seen branch)
             if shared is None:
                 shared = f.server_conn
             f.server_conn = shared
         flows.append(f)
-        specs.append((spec, f, exp, idx))
+        specs.append((spec, f, exp, n))
     path = os.path.join(scratch_dir(), "f-%d.har" % os.getpid())
-    fe = {"n_flows": len(seq), "has_non_http": any(POOL[i] == "tcp" for i in seq)}
+    fe = {"n_flows": len(seq), "has_non_http": any(POOL[i] == "tcp" for i in seq),
+          "start_times": ts_order([ts[n] for _, _, _, n in specs])}
     _, exc = call(SaveHar().export_har, flows, path)
     if not t.judge("export_succeeds", exc is None, fe, case, None, exc):
         t.case(None, nontrivial=False)
@@ -504,13 +538,20 @@ def one_file(seq, t: Tally):
     if not t.judge("import_succeeds", ok, fe, case, "%d flows" % len(specs), exc or len(got)):
         t.case(None, nontrivial=True, key=case)
         return
-    want = [(e["method"], url_of(s)) for s, f, e, _ in specs]
-    have = [(g.request.method, g.request.url) for g in got]
-    t.judge("order_kept", want == have, fe, case, want, have)
-    for (spec, f, exp, idx), g in zip(specs, got):
+    # the imported order must be the order of the exported *list* (each flow carries its list position in X-Seq)
+    want = [(str(n), e["method"], url_of(s)) for s, f, e, n in specs]
+    have = [(g.request.headers.get("X-Seq", "?"), g.request.method, g.request.url) for g in got]
+    in_order = t.judge("order_kept", want == have, fe, case, want, have)
+    if in_order:
+        pairs = list(zip(specs, got))
+    else:
+        # judge the per-flow clauses on the flows that belong together, so that a reordering is reported once
+        by_seq = {g.request.headers.get("X-Seq", "?"): g for g in got}
+        pairs = [(s, by_seq[str(s[3])]) for s in specs if str(s[3]) in by_seq] if len(by_seq) == len(got) else []
+    for (spec, f, exp, n), g in pairs:
         compare(spec, f, exp, g, t, case)
     t.case(case if len(seq) == 3 and len(t.samples) < 1 else None, nontrivial=len(specs) > 0, key=case)
-    t.outcome(["file", have])
+    t.outcome(["file", fe["start_times"], have])
 
 
 def chunk_files(chunk):
@@ -572,21 +613,43 @@ def all_specs(k, plus_one=False):
     return out
 
 
+def weak_orderings(n):
+    """all start-time assignments for n list positions up to order-isomorphism (dense ranks), ascending first"""
+    out = []
+    for ts in itertools.product(range(n), repeat=n):
+        ranks = sorted(set(ts))
+        dense = [ranks.index(x) for x in ts]
+        if dense == list(ts):
+            out.append(list(ts))
+    asc = list(range(n))
+    out.sort(key=lambda ts: (ts != asc, ts))
+    return out
+
+
 def run(ctx):
     k = ctx.pick(2, 3)
     maxfile = 3
     specs = all_specs(k, plus_one=ctx.thorough)
-    files =[list(s) for n in range(1, maxfile + 1) for s in itertools.product(range(len(POOL)), repeat=n)]
+    seqs = [list(s) for n in range(1, maxfile + 1) for s in itertools.product(range(len(POOL)), repeat=n)]
     if not ctx.thorough:
         # quick: in files of 3 the second and third flow come from the first 5 pool entries only
-        files = [s for s in files if len(s) < 3 or all(i < 5 for i in s[1:])]
+        seqs = [s for s in seqs if len(s) < 3 or all(i < 5 for i in s[1:])]
+    # the exported list order is independent of the flows' start times: every weak ordering of the start
+    # times (ascending, descending, equal, ties, non-monotonic) is combined with the flow selections
+    files = []
+    for s in seqs:
+        for ts in weak_orderings(len(s)):
+            ascending = ts == list(range(len(s)))
+            if ascending or ctx.thorough or len(s) < 3 or all(i < 4 for i in s):
+                files.append({"file": s, "ts": ts})
     ctx.bounds = {
         "max_simultaneous_deviations": k,
         "dimensions": {d: [str(x) for x in v] for d, v in DIMS.items()},
         "body_group_products": "resp_body x resp_ctype x resp_ce x {HTTP/1.1, HTTP/2.0}; {POST,PUT,PATCH} x req_body x req_ctype x req_ce"
         + ("; each product also combined with every single deviation of every other dimension" if ctx.thorough else ""),
-        "files": "ordered selections of 1..%d flows from a pool of %d%s" % (
-            maxfile, len(POOL), "" if ctx.thorough else " (files of 3: positions 2,3 from the first 5 pool entries)"),
+        "files": "ordered selections of 1..%d flows from a pool of %d%s, each with every weak ordering of the start times (3 for 2 flows, 13 for 3 flows%s)" % (
+            maxfile, len(POOL), "" if ctx.thorough else " (files of 3: positions 2,3 from the first 5 pool entries)",
+            "" if ctx.thorough else "; for 3 flows only selections from the first 4 pool entries, ascending otherwise"),
         "n_flow_cases": len(specs),
         "n_files": len(files),
     }
@@ -615,7 +678,7 @@ def replay(case, t: Tally, verbose=False):
     if "file" in case:
         scratch_dir()
         try:
-            one_file(case["file"], t)
+            one_file(case, t)
         finally:
             drop_scratch()
         return
